@@ -181,9 +181,10 @@ Fixpoint req_inc_loop (olds news : list Z) (factors : list Q) (inc : Q) : res Q 
   | _, _, _ => Ok inc
   end.
 
+(* since the repair of `dep-key-shared-across-depths` the previous state may have another depth: zip compares the
+   common outer levels only *)
 Definition required_increment_from (new prev : depstate) (factors : list Q) : res Q :=
-  if negb (Nat.eqb (length (snd new)) (length (snd prev))) then Err EAssert
-  else if negb (Nat.eqb (length (snd new)) (length factors)) then Err EAssert
+  if negb (Nat.eqb (length (snd new)) (length factors)) then Err EAssert
   else req_inc_loop (snd prev) (snd new) factors (fst new - fst prev)%Q.
 
 Definition opt_key_is (o : option key) (k : key) : bool :=
